@@ -278,13 +278,57 @@ func runC13Post(c *Ctx) {
 			vcalls = append(vcalls, call)
 		}
 	})
-	if len(vcalls) == 0 {
+	// a helper split off convexHull that returns (polygon, polygon.Validate()) is a validation of its first result
+	type vsite struct {
+		call ssa.CallInstruction
+		verr ssa.Value
+		x    ssa.Value
+	}
+	var sites []vsite
+	for _, vc := range vcalls {
+		sites = append(sites, vsite{vc, vc.Value(), vc.Common().Args[0]})
+	}
+	if len(sites) == 0 {
+		eachCall(f, func(call ssa.CallInstruction) {
+			h := staticCallee(call)
+			if h == nil || !isNewHelper(h) || len(h.Blocks) == 0 || h.Signature.Results().Len() != 2 || !isErrorType(h.Signature.Results().At(1).Type()) {
+				return
+			}
+			allValidated := true
+			nret := 0
+			for _, r := range returnsOf(h) {
+				nret++
+				ec, ok := r.Results[1].(*ssa.Call)
+				if !ok || !isValidateCall(ec) || !derivesFrom(r.Results[0], ec.Call.Args[0], 0) && !sameValue(r.Results[0], ec.Call.Args[0]) {
+					allValidated = false
+				}
+			}
+			if !allValidated || nret == 0 || call.Value() == nil {
+				return
+			}
+			var x0, x1 ssa.Value
+			for _, r := range *call.Value().Referrers() {
+				if ex, ok := r.(*ssa.Extract); ok {
+					if ex.Index == 0 {
+						x0 = ex
+					} else {
+						x1 = ex
+					}
+				}
+			}
+			if x0 != nil && x1 != nil {
+				sites = append(sites, vsite{call, x1, x0})
+			}
+		})
+	}
+	if len(sites) == 0 {
 		c.Bad(f.Pos(), fn, "validate hull polygon", "convexHull no longer validates the polygon it constructs")
 		return
 	}
-	for _, vc := range vcalls {
-		verr := vc.Value()
-		x := vc.Common().Args[0]
+	for _, st := range sites {
+		vc := st.call
+		verr := st.verr
+		x := st.x
 		// on verr != nil the function must not return normally
 		_, rets := exploreAfter(vc, verr, true, func(ssa.CallInstruction) bool { return false })
 		c.Check(len(rets) == 0, vc.Pos(), fn, "validate hull polygon", "a validation failure panics (cannot return an invalid polygon)", "a failed validation of the hull polygon is swallowed and a geometry is returned anyway")
